@@ -146,8 +146,9 @@ fn generate(scen_seed: u64) -> Scenario {
             if register && rng.chance(1, 2) {
                 calls.push(Call { kind: if rng.chance(2, 3) { Kind::SetGlobal(*rng.pick(&[0u8, 1, 1, 3, 3])) } else { Kind::GetGlobal }, frags: vec![], nested: vec![] });
             }
-            let kind = match rng.below(13) {
-                0 => Kind::Print,
+            // (the print macros are what most programs use: three times the weight of the others)
+            let kind = match rng.below(21).saturating_sub(8) {
+                0 => rng.pick(&[Kind::Print, Kind::Println, Kind::Eprint, Kind::Eprintln]).clone(),
                 1 => Kind::Println,
                 2 => Kind::Eprint,
                 3 => Kind::Eprintln,
@@ -167,7 +168,7 @@ fn generate(scen_seed: u64) -> Scenario {
         // colour code for the next print to finish): whatever state that leaves anywhere, the other
         // threads' records must still come out whole.  (Only the last one, so that an implementation
         // that keeps one stream per thread is judged the same as one that builds a stream per call.)
-        if rng.chance(1, 3) {
+        if rng.chance(1, 2) {
             if let Some(last) = calls.iter_mut().rev().find(|c| !c.frags.is_empty()) {
                 if !matches!(last.kind, Kind::LockedOutGroup | Kind::LockedErrGroup) {
                     let n = last.frags.len();
